@@ -28,12 +28,21 @@ package carreader
 //@   ensures result1 == nil ==> result0 != nil && fresh(result0) && result0.br != nil && result0.Header != nil && result0.headerSize == nil
 //@   ensures result1 != nil ==> result0 == nil
 
+// carHeaderLen(h): the length of the header SECTION of a CARv1 file with header h, i.e. the uvarint length prefix plus the
+// dag-cbor encoding, which is what carv1.WriteHeader writes (assumed at that trusted boundary, third-party code). The first
+// object section of the CAR starts at this offset: every offset the indexer records is seeded from it (C01).
+//@ spec func carHeaderLen(h *carv1.CarHeader) int
+
 //@ func (*CarReader) HeaderSize
 //@   mode int
 //@   modifies cr
 //@   ensures result1 == nil ==> cr.headerSize != nil && result0 == *cr.headerSize
 //@   ensures old(cr.headerSize) != nil ==> result1 == nil && cr.headerSize == old(cr.headerSize)
 //@   ensures cr.br == old(cr.br) && cr.Header == old(cr.Header)
+//@   # C01: a size computed here (not cached before) is the number of bytes of the serialized header section
+//@   fncall carv1.WriteHeader modifies written(arg1)
+//@   fncall carv1.WriteHeader ensures result == nil ==> written(arg1) == old(written(arg1)) + carHeaderLen(arg0)
+//@   ensures old(cr.headerSize) == nil && result1 == nil ==> int(result0) == carHeaderLen(cr.Header)
 
 // ---- uvarint length prefix ----
 
